@@ -148,7 +148,7 @@ class OneShot(kh.Session):
     r, m = self._solve(ab, min(self.timeout_ms, 8000))
     if r == "unknown":
       # array reads -> fresh constants (same read, same constant): pure arithmetic for the nlsat tactic; over-approximation
-      r, m = self._solve_forked(abstract_selects(ab), "qfnra-nlsat", max(10.0, min(90.0, self.timeout_ms / 1000.0))), None
+      r, m = self._solve_forked(abstract_selects(ab), "qfnra-nlsat", max(10.0, min(300.0, 0.75 * self.timeout_ms / 1000.0))), None
     if r != "unsat":
       r, m = self._solve(fs)  # a model (or the final word) only from the exact formula
     return r, time.time() - t0, m
@@ -184,6 +184,18 @@ def oneshot(ctx, bg):
 
 def zr(x):
   return core.to_z3(x, "real")
+
+
+def prove_nice(ctx, sess, name, goal, guard=True, nice=(), **kw):
+  """prove guard => goal.  If a counterexample exists inside the region `nice` (extra constraints under which the violated
+  intermediate fact is visible in the kernel's output) the query is issued with that region as guard, so that the model handed to
+  the replay reproduces; otherwise the general query is issued (and must be unsat)."""
+  if nice:
+    g2 = And(guard, *nice)
+    r = sess.prove(name + "#nice-probe", goal, g2)
+    if r.status == "sat":
+      return ctx.prove(sess, name, goal, g2, **kw)
+  return ctx.prove(sess, name, goal, guard, **kw)
 
 
 # ================================================================================================ reference (MuJoCo semantics)
@@ -529,7 +541,7 @@ def unit_damper_dof(jt, damper_off):
     nd = NDOF[jt]
     ctx.bound(jnt_type=JNAME[jt], shape_cap=8, note="one generic thread of the force kernel and one generic thread of the derivative kernel over the SAME symbolic arrays (sizes, ids, contents, batch sizes symbolic); exact reals")
     ctx.assume("thread's own accesses in bounds (C17)", "SPRING disabled in the force run (springs do not depend on qvel; their branch is not encoded)",
-               "main queries: the dofs of one joint share the damping coefficients (as compiled from MJCF); the per-dof case is the separate query own-force/per-dof-coefficients")
+               "dof_damping / dof_dampingpoly are per-dof fields: the dofs of a ball / free joint may carry different coefficients")
     fflags = S | (D if damper_off else 0)
     dflags = (D if damper_off else 0) | 1
     ktf = lib.kernel_thread(kf, scalars={"opt_disableflags": fflags, "jnt_type": const_int_array("jnt_type", jt)}, cap=8)
@@ -572,20 +584,14 @@ def unit_damper_dof(jt, damper_off):
         is_own = And(rd.arg(1) == w, rd.arg(2) == dof)
         dF = dF + z3.If(core.zbool(is_own), dk, 0)
         ctx.prove(sess, f"force[{i}]/independent-of-other-velocity/{z3.simplify(rd.arg(2) - da)}", Or(is_own, dk == 0), names=names, replay=replay_fd(JNAME[jt]), desc=f"damper force of dof {i} of a {JNAME[jt]} joint depends on another dof's velocity (qDeriv stores no such entry)")
-      shared = And(vb(ktd, "dof_damping", dof) == vb(ktf, "dof_damping", da), *[a == b for a, b in zip(vbv(ktd, "dof_dampingpoly", dof), vbv(ktf, "dof_dampingpoly", da))])
       diag = And(di == dof, dj == dof, madr >= 0)
       want_own = base - h * (qd0 + dF)
       # (a) against the derivative of MuJoCo's per-dof damper force (reference validated in unit `reference`)
       dref = zr(arith("*", ref_poly_deriv(vb(ktd, "dof_damping", dof), vbv(ktd, "dof_dampingpoly", dof), own), -1)) if not damper_off else z3.RealVal(0)
       ctx.prove(sess, f"diag[{i}]/mujoco-derivative", out == base - h * (qd0 + dref), diag, names=names, replay=rpk, desc=f"_qderiv_actuator_passive ({JNAME[jt]} dof {i}): diagonal entry is not M - h (qDeriv - (d + 2 p0 |v| + 3 p1 v^2))" + (" [DAMPER disabled: M - h qDeriv]" if damper_off else ""))
-      # (b) against the symbolic derivative of the REAL force kernel's term
-      if i == 0:
-        ctx.prove(sess, f"diag[{i}]/own-force", out == want_own, diag, names=names, replay=replay_fd(JNAME[jt]), desc=f"qDeriv diagonal of {JNAME[jt]} dof {i} is not the velocity derivative of the force that _spring_damper_dof_passive computes")
-      else:
-        ctx.prove(sess, f"diag[{i}]/own-force", out == want_own, And(diag, shared), names=names, replay=replay_fd(JNAME[jt]), desc=f"qDeriv diagonal of {JNAME[jt]} dof {i} is not the velocity derivative of the force that _spring_damper_dof_passive computes")
-        if not damper_off and i == nd - 1:
-          ctx.prove(sess, "own-force/per-dof-coefficients", out == want_own, diag, names=names, replay=replay_fd(JNAME[jt], tweak=per_dof),
-                    desc=f"{JNAME[jt]} joint whose dofs have different dof_damping / dof_dampingpoly: _spring_damper_dof_passive applies the FIRST dof's coefficients to every dof (MuJoCo: per dof), _qderiv_actuator_passive differentiates the per-dof force: qDeriv is not the derivative of mujoco_warp's own damper force")
+      # (b) against the symbolic derivative of the REAL force kernel's term (every dof with its own coefficients)
+      ctx.prove(sess, f"diag[{i}]/own-force", out == want_own, diag, names=names, replay=replay_fd(JNAME[jt], tweak=per_dof),
+                desc=f"qDeriv diagonal of {JNAME[jt]} dof {i} is not the velocity derivative of the force that _spring_damper_dof_passive computes for that dof (per-dof dof_damping / dof_dampingpoly)")
     # off-diagonal entries: no joint-damper contribution
     ctx.prove(sess, "offdiag/no-damper-term", out == base - h * qd0, And(di != dj, madr >= 0), names=names, replay=rpk, desc="_qderiv_actuator_passive: an off-diagonal entry receives a damper term")
     ctx.prove(sess, "offpattern/untouched", Not(ktd.written("qDeriv_in", z3.Int("w2"), z3.Int("a2"))), madr < 0, names=names, replay=rpk, desc="_qderiv_actuator_passive writes although M_elemid says the pair is not stored")
@@ -621,6 +627,8 @@ def goal_qderiv_tendon(spec, pre, post):
     Ji = sum(float(pre["ten_J_in"][w, a]) for c, a in row if c == i)
     Jj = sum(float(pre["ten_J_in"][w, a]) for c, a in row if c == j)
     td, tp = pre["tendon_damping"], pre["tendon_dampingpoly"]
+    if not (td.shape[0] and tp.shape[0] and td.shape[1] > t and tp.shape[1] > t and pre["ten_velocity_in"].shape[0] > w and pre["ten_velocity_in"].shape[1] > t):
+      return True, "skipped: damping arrays without the tendon's entry"
     tot += Ji * Jj * float(ref_poly_deriv(float(td[w % td.shape[0], t]), [float(x) for x in tp[w % tp.shape[0], t]], float(pre["ten_velocity_in"][w, t])))
   want = float(pre["qDeriv_out"][w, madr]) + h * tot
   got = float(post["qDeriv_out"][w, madr])
@@ -693,8 +701,22 @@ def unit_damper_tendon(NT, UNR):
    stored = madr >= 0
    ctx.reach(sess, "twin:stored-pair-on-a-full-row", And(stored, di != dj, ktd.pre("ten_J_rownnz", 0) == UNR, ktd.pre("ten_J_colind", ktd.pre("ten_J_rowadr", 0)) == dj, ktd.pre("ten_J_colind", ktd.pre("ten_J_rowadr", 0) + 1) == di))
    names = {"w": w, "elem": e, "dofi": di, "dofj": dj, "madr": madr, "rownnz0": ktd.pre("ten_J_rownnz", 0)}
-   rpk = lib.make_replay(ctx, ktd, "mujoco_warp._src.derivative:_qderiv_tendon_damping", "tendon", "goal", goal="checks.c27:goal_qderiv_tendon", env={"randomize_floats": 3})
-   ctx.prove(sess, "entry/mujoco-derivative", out1 == out0 - h * dRef, stored, names=names, replay=rpk, desc="_qderiv_tendon_damping: entry (i,j) is not out0 + h sum_t J_ti (d + 2 p0 |v_t| + 3 p1 v_t^2) J_tj")
+   rpk = lib.make_replay(ctx, ktd, "mujoco_warp._src.derivative:_qderiv_tendon_damping", "tendon", "goal", goal="checks.c27:goal_qderiv_tendon", env={"randomize_floats": 4})
+   env = ktd.it.top_frame.env
+   if NT == 1 and "Ji" in env and "Jj" in env:
+     # the kernel's own row search (locals Ji / Jj at exit) is compared with the reference's J_ti / J_tj first; the entry query then uses
+     # the kernel's terms in place of the reference's (substitution of proved equals), which leaves a small polynomial identity
+     Ji_k, Jj_k = zr(env["Ji"]), zr(env["Jj"])
+     (Jr, Jc, bp) = refs[0]
+     tdp = [ktd.pre("tendon_damping", arith("%", w, ktd.cell("tendon_damping").shape[0]), 0)] + list(ktd.prev("tendon_dampingpoly", arith("%", w, ktd.cell("tendon_dampingpoly").shape[0]), 0).c)
+     stored_d = And(stored, Or(*[x != 0 for x in tdp]))  # a tendon without damping coefficients is skipped before the row search (and contributes 0)
+     vis = [h != 0, bp != 0]
+     prove_nice(ctx, sess, "entry/row-search/J_ti", Ji_k == Jr, stored_d, nice=vis + [Jc != 0, Jj_k != 0], names=names, replay=rpk, desc="_qderiv_tendon_damping: the Jacobian entry found for dof i is not J_ti (0 if the tendon does not move dof i)")
+     prove_nice(ctx, sess, "entry/row-search/J_tj", Jj_k == Jc, stored_d, nice=vis + [Jr != 0, Ji_k != 0], names=names, replay=rpk, desc="_qderiv_tendon_damping: the Jacobian entry found for dof j is not J_tj (0 if the tendon does not move dof j)")
+     ctx.prove(sess, "entry/no-damping-no-change", out1 == out0, And(madr >= 0, Not(Or(*[x != 0 for x in tdp]))), names=names, replay=rpk, desc="_qderiv_tendon_damping: a tendon without damping coefficients changes the entry")
+     ctx.prove(sess, "entry/mujoco-derivative", out1 == out0 + h * (Ji_k * Jj_k * bp), stored_d, names=names, replay=rpk, desc="_qderiv_tendon_damping: entry (i,j) is not out0 + h J_ti (d + 2 p0 |v_t| + 3 p1 v_t^2) J_tj")
+   else:
+     ctx.prove(sess, "entry/mujoco-derivative", out1 == out0 - h * dRef, stored, names=names, replay=rpk, desc="_qderiv_tendon_damping: entry (i,j) is not out0 + h sum_t J_ti (d + 2 p0 |v_t| + 3 p1 v_t^2) J_tj")
    # own force: d F_i / d qvel_j = sum_t (dF_i/dv_t) (dv_t/dqvel_j); each factor (a symbolic derivative of the real kernel's term) is proved
    # equal to the factor of the reference, whose product is what entry/mujoco-derivative compares the kernel with
    for (t, dF_dv, dv_dq), (Jr, Jc, bp) in zip(lemmas, refs):
@@ -775,7 +797,7 @@ def unit_act_vel(dname, gname, bname):
     fixed = {"actuator_dyntype": dyn, "actuator_gaintype": gain, "actuator_biastype": bias}
     w, u = z3.Int("tid0"), z3.Int("tid1")
     ktf = lib.kernel_thread(kf, shapes={l: [1, None] for l in UNBATCH2}, tid=(w, u), cap=4, interp_kw={"interp": AI(fixed=fixed)})
-    ktd = lib.kernel_thread(kd, shapes={l: [1, None] for l in UNBATCH2 if l not in ("actuator_ctrlrange", "actuator_acc0", "actuator_lengthrange")}, tid=(w, u), cap=4, interp_kw={"interp": AI(fixed=fixed)})
+    ktd = lib.kernel_thread(kd, shapes={l: [1, None] for l in UNBATCH2 if l in kh_labels(kd)}, tid=(w, u), cap=4, interp_kw={"interp": AI(fixed=fixed)})
     P = ktf.pre
     adr, num = P("actuator_actadr", u), P("actuator_actnum", u)
     last = adr + num - 1
@@ -794,6 +816,8 @@ def unit_act_vel(dname, gname, bname):
     bg += [P("actuator_dyntype", u) == dyn, P("actuator_gaintype", u) == gain, P("actuator_biastype", u) == bias]
     # Data fields produced by the force kernel and consumed by the derivative kernel
     bg.append(ktd.pre("actuator_force_in", w, u) == F)
+    if "dsbl_clampctrl" in ktd.args:  # both kernels run under the same disable flags
+      bg.append((ktd.args["dsbl_clampctrl"] != 0) == (ktf.args["dsbl_clampctrl"] != 0))
     if dyn != DYN["none"]:
       bg.append(ktd.pre("act_dot_in", w, last) == z3.simplify(DF.push_selects(zr(ktf.post("act_dot_out", w, last)))))
     sess = oneshot(ctx, bg)
@@ -828,6 +852,10 @@ def unit_act_vel(dname, gname, bname):
 
 
 # ================================================================================================ actuator J^T vel J accumulation
+
+
+def kh_labels(kernel):
+  return {lab for lab, _ in kh.arg_specs(kernel)}
 
 
 def goal_jtj(spec, pre, post):
@@ -1338,7 +1366,7 @@ def main(tier, seed, only=None):
 
   units = [("reference", unit_reference), ("lemma/poly", unit_lemma_poly)]
   units += [unit_damper_dof(jt, off) for jt in (SLIDE, BALL, FREE) for off in (False, True)]
-  units += [unit_damper_tendon(1, 2)] if tier != "thorough" else [unit_damper_tendon(1, 3), unit_damper_tendon(2, 1)]
+  units += [unit_damper_tendon(1, 2)] if tier != "thorough" else [unit_damper_tendon(1, 3), unit_damper_tendon(1, 2)]
   units += [unit_act_vel(d, g, b) for d in ("none", "integrator", "filter", "filterexact") for g in ("fixed", "affine") for b in ("none", "affine")]
   units += [unit_act_vel("muscle", "muscle", "muscle"), ("actuator/JtJ", unit_jtj)]
   units += [unit_assemble(v) for v in H_FLAGS]
